@@ -31,7 +31,7 @@ Proof.
   rewrite last_last in Hlast. subst x. rewrite map_app. cbn. apply last_last.
 Qed.
 
-Lemma single_conflict_flow id p n : c_pos (single_conflict id p n) = p /\ c_nonnil (single_conflict id p n) = [n].
+Lemma single_conflict_flow id p n src : c_pos (single_conflict id p n src) = p /\ c_nonnil (single_conflict id p n src) = [n].
 Proof. split; reflexivity. Qed.
 
 Open Scope Z_scope.
